@@ -20,6 +20,7 @@ func C09(c *Ctx) {
 	r.Rule("C09-a", "for every (type, field) the optimizer visitors store to, and every type with Expression children: cloneExpr has a case returning a fresh &T{…} whose Expression children are cloneExpr results and whose mutated slice fields are fresh copies")
 	r.Rule("C09-e", "closed world of rewrites: the optimizer visitors store only to the (type, field) pairs of the documented rewrites (operand slots of the composite kinds, LitMatcher.Val, the member lists and Val of CharClassMatcher, Grammar.Rules); a store to any other field is a rewrite no side-condition rule covers")
 	r.Rule("C09-f", "effects of the merge rewrites: (1) merging two classes appends all three member lists (Chars, Ranges, UnicodeClasses) of the second to the first; (2) in every merge case the node that received the members is the one left at index i-1 (it already is, or it is stored there) before element i is removed; (3) removal of element i happens iff a merge was applied; (4) a referenced rule is inlined only when it is defined and uses no rules; (5) the reference bookkeeping records both directions and the clean-up after removing a rule deletes exactly that rule from the user sets; (6) the duplicate removal of cleanupCharClassMatcher keeps every distinct member (append under the not-seen test) for all three lists")
+	r.Rule("C09-g", "the inlining pass offers every operand slot to optimizeRule: for every kind with Expression children (and Rule) the optimize visitor stores optimizeRule(slot) into every slot on every path of that kind's case - the per-rule-pair usage bookkeeping is cleared by the first inlining, so a skipped slot keeps a reference to a rule that is then removed")
 	r.Rule("C09-b", "each case of the alternative-merge switch that builds or extends a CharClassMatcher requires !X.Inverted for every class operand, IgnoreCase equality of the two operands and a single rune for every literal operand")
 	r.Rule("C09-c", "ast.Walk and cloneExpr: one case per expression kind; Walk recurses into every Expression child; no kind reaches a panicking default")
 	r.Rule("C09-d", "rules are removed only under !used && !protected; protectedRules = alternateEntrypoints ∪ {first rule}; main passes -alternate-entrypoints to ast.Optimize")
@@ -341,13 +342,58 @@ func c09Entrypoints(c *Ctx, g *load.G) {
 	sf := load.FuncDecl(g.Pkg(""), "ruleNamesFlag", "Set")
 	okSet := false
 	if sf != nil {
+		// on every normalised path the value stored into *recv extends the old *recv: it is reached from it through
+		// append / slices.Grow steps only (directly, or through a local that is only ever extended)
 		recv := recvName(sf)
-		ast.Inspect(sf.Body, func(n ast.Node) bool {
-			if as, ok := n.(*ast.AssignStmt); ok && nospace(as.Lhs[0]) == "*"+recv {
-				okSet = strings.HasPrefix(nospace(as.Rhs[0]), "append(*"+recv+",")
+		old := "*" + recv
+		paths := c.pkgNorm("").normPaths(sf)
+		okSet = len(paths) > 0
+		for _, p := range paths {
+			var extends func(v string, upto, depth int) bool
+			extends = func(v string, upto, depth int) bool {
+				if depth > 8 {
+					return false
+				}
+				v = minParens(v)
+				switch {
+				case v == old:
+					return true
+				case strings.HasPrefix(v, "append(") && wholeCall(v):
+					return extends(splitTop(v[len("append("):len(v)-1], ",")[0], upto, depth+1)
+				case strings.HasPrefix(v, "slices.Grow(") && wholeCall(v):
+					return extends(splitTop(v[len("slices.Grow("):len(v)-1], ",")[0], upto, depth+1)
+				case dollarRe.FindString(v) == v && v != "":
+					// every definition of the local before this point extends the old value (or the local itself)
+					n := 0
+					for i := 0; i < upto && i < len(p); i++ {
+						if p[i].Kind == "set" && strings.HasPrefix(p[i].Text, v+"=") {
+							n++
+							rhs := strings.TrimPrefix(p[i].Text, v+"=")
+							if first := firstArgOf(rhs); first == v {
+								continue
+							}
+							if !extends(rhs, i, depth+1) {
+								return false
+							}
+						}
+					}
+					return n > 0
+				}
+				return false
 			}
-			return true
-		})
+			stored := false
+			for i, e := range p {
+				if e.Kind == "set" && strings.HasPrefix(e.Text, old+"=") {
+					stored = true
+					if !extends(strings.TrimPrefix(e.Text, old+"="), i, 0) {
+						okSet = false
+					}
+				}
+			}
+			if !stored {
+				okSet = false
+			}
+		}
 	}
 	r.Check(okSet, "C09-d", "G.main.ruleNamesFlag.Set:accumulates", "", "main.go", "every occurrence of -alternate-entrypoints adds to the list", "Set does not append to the names collected so far: with the flag given twice only the last list is protected, the other rules are removed by the optimizer")
 	r.Check(okMain, "C09-d", "G.main:passes-alternate-entrypoints", "", "main.go", "ast.Optimize(grammar, altEntrypointsFlag...)", "main does not pass the -alternate-entrypoints list to the optimizer")
@@ -365,6 +411,7 @@ func c09Effects(c *Ctx, g *load.G) {
 	okRemove, whyRemove := optimizerAbsorbedRemoved(c, g)
 	r.Check(okRemove, "C09-f", "G.ast.optimize:absorbed-alternative-removed", "", g.Where(fd.Pos()), "element i is removed exactly when a merge was applied", whyRemove)
 	optimizerInlining(c, g, "C09-f")
+	optimizerSlotCoverage(c, g, "C09-g")
 	// (6) duplicate removal keeps every distinct member
 	cf := load.FuncDecl(ap, "grammarOptimizer", "cleanupCharClassMatcher")
 	if cf != nil {
@@ -538,4 +585,14 @@ func clonesListElementwise(c *Ctx, fd *ast.FuncDecl, body []ast.Stmt, src, field
 		}
 	}
 	return true
+}
+
+// firstArgOf: the first argument of an append / slices.Grow call text ("" otherwise).
+func firstArgOf(v string) string {
+	for _, pre := range []string{"append(", "slices.Grow("} {
+		if strings.HasPrefix(v, pre) && wholeCall(v) {
+			return splitTop(v[len(pre):len(v)-1], ",")[0]
+		}
+	}
+	return ""
 }
